@@ -43,6 +43,7 @@
 
 #include <xercesc/util/Mutexes.hpp>
 #include <xercesc/util/PlatformUtils.hpp>
+#include <xercesc/util/XercesVerifHooks.hpp>
 #include <xercesc/util/RefVectorOf.hpp>
 #include <xercesc/util/XMLString.hpp>
 #include <xercesc/util/XMLUni.hpp>
@@ -146,6 +147,9 @@ XMLTransService*        XMLPlatformUtils::fgTransService2 = 0;
 PanicHandler*           XMLPlatformUtils::fgUserPanicHandler = 0;
 PanicHandler*           XMLPlatformUtils::fgDefaultPanicHandler = 0;
 MemoryManager*          XMLPlatformUtils::fgMemoryManager = 0;
+#if defined(XERCES_VERIF_HOOKS)
+VerifHooks::HookFn      VerifHooks::fgHook = 0;
+#endif
 bool                    XMLPlatformUtils::fgMemMgrAdopted = true;
 
 XMLFileMgr*             XMLPlatformUtils::fgFileMgr = 0;
